@@ -157,7 +157,32 @@ def run_shard(name, spec, i, n):
     job = Job(dict(spec, shard=i, nshards=n))
     try:
         mod.run(job)
-    except Exception:
+    except Exception as e:
+        # an exception raised by the library on an input for which the
+        # stand-in expects a result is a failing input (the shard stops
+        # there); an exception raised by the stand-in's own code is an
+        # engine error
+        tb = traceback.extract_tb(e.__traceback__)
+        import quantity
+        lib = os.path.realpath(os.path.dirname(quantity.__file__))
+        if tb and os.path.realpath(tb[-1].filename).startswith(lib):
+            mine = [f for f in tb if "/runtime/standins_" in f.filename]
+            where = mine[-1] if mine else tb[0]
+            frame = e.__traceback__
+            loc = {}
+            while frame is not None:
+                if frame.tb_frame.f_code.co_filename == where.filename:
+                    loc = frame.tb_frame.f_locals
+                frame = frame.tb_next
+            shown = {k: repr(v)[:80] for k, v in list(loc.items())[::-1][:25]
+                     if not k.startswith("_") and k not in ("job", "rng")
+                     and not callable(v)}
+            job.case("unexpected-exception/" + os.path.basename(where.filename)
+                     + f":{where.lineno}",
+                     (where.line, shown), False, repr(e)[:300],
+                     "no exception (the unchanged code returns a result here)",
+                     signature=f"{type(e).__name__} at {where.lineno}")
+            return job.result()
         return dict(error="stand-in raised: " + traceback.format_exc()[-1500:])
     return job.result()
 
